@@ -627,7 +627,9 @@ func c19Tamperings(fx *c19Fixture, other *c19Fixture) map[string][]byte {
 	rewrite("checksum-removed", func(m map[string]any) { delete(m, "checksum") })
 	rewrite("checksum-empty", func(m map[string]any) { m["checksum"] = "" })
 	rewrite("checksum-of-other-state", func(m map[string]any) { m["checksum"] = other.st.Checksum })
-	rewrite("checksum-uppercase-hex", func(m map[string]any) { m["checksum"] = "crc32c:" + strings.ToUpper(strings.TrimPrefix(fx.st.Checksum, "crc32c:")) })
+	rewrite("checksum-uppercase-hex", func(m map[string]any) {
+		m["checksum"] = "crc32c:" + strings.ToUpper(strings.TrimPrefix(fx.st.Checksum, "crc32c:"))
+	})
 	rewrite("checksum-wrong-algorithm-tag", func(m map[string]any) { m["checksum"] = "crc32:" + strings.TrimPrefix(fx.st.Checksum, "crc32c:") })
 	rewrite("schema-version-2", func(m map[string]any) { m["schema_version"] = json.Number("2") })
 	rewrite("extra-unknown-field", func(m map[string]any) { m["zz_extra"] = json.Number("1") })
